@@ -70,7 +70,9 @@ RULE = ('phase-split solve: n = 1..7, z Dirichlet(0.2|1|3) (10% with an exact ze
         'their TRACE variants (one extra database compound at 1e-10..1e-6 of the feed mass; one existing component scaled down to '
         'that level, with the feed without it as reference), compared metamorphically (same phase count, |delta beta| <= 0.05 when the '
         'reference has 0.02 <= beta <= 0.98); regression search: '
-        'feeds whose first component has K = 1 (bisection in P).  Floors on every outcome class are obligations.  A case is '
+        'feeds whose first component has K = 1 (bisection in P); histories on ONE object: call, edit the same mass ndarray in place '
+        '(zero a component / x10^k / permute), call again at the same T, P, overwrite the returned arrays, call again — every call judged '
+        'against the feed of that call and against a fresh object.  Floors on every outcome class are obligations.  A case is '
         'non-trivial when it is distinct (composition, masses, T, P rounded to 12 digits)')
 LEVEL_NOTE = ('theorems over the reals about a hand-written model of the flash orchestration, tied to /repo by value '
               'correspondence on every generated case; floating point, the equation of state, successive substitution, stability '
@@ -1344,6 +1346,109 @@ def run_targeted(ctx, dbm):
     ctx.notes.append('targeted: %d of %d feeds have a pressure where the K of the first component crosses 1' % (nfound, len(feeds)))
 
 
+# =============================================================================================
+# part D — histories on ONE FluidMixture object (the answer must depend on the arguments of THIS call only)
+# =============================================================================================
+
+def eval_history(job):
+    """one history on one object: equilibrium(m, T, P); edit the SAME ndarray in place (zero a component / rescale by 10^k /
+    permute the values); equilibrium again at the same T, P; then call with a fresh equal array, overwrite the RETURNED arrays,
+    call once more.  Every call is judged against the feed OF THAT CALL and against a brand-new object."""
+    warnings.simplefilter('ignore')
+    from tamoc import dbm
+    case, ops, budget = job
+    names, T, P = case['composition'], case['T'], case['P']
+    out = {'case': case, 'ops': ops, 'status': 'ok', 'calls': 0, 'violations': []}
+
+    def flash(obj, arr):
+        with np.errstate(all='ignore'):
+            return call_with_budget(lambda: obj.equilibrium(arr, T, P), budget)
+
+    def judge(step, res, feed):
+        mm, xi, K = (np.array(x, dtype=float) for x in res)
+        feed = np.array(feed, dtype=float)
+        out['calls'] += 1
+        info = {'composition': names, 'T': T, 'P': P, 'history': ops, 'step': step, 'm_of_this_call': feed.tolist(), 'masses': mm.tolist()}
+        fresh = tuple(np.array(x, dtype=float) for x in flash(dbm.FluidMixture(list(names)), feed.copy()))
+        if not all(a.shape == b.shape and close(a.ravel().tolist(), b.ravel().tolist(), TOL['gen_vs_source']) for a, b in zip((mm, xi, K), fresh)):
+            out['violations'].append(('history:result-differs-from-fresh-object', 'equilibrium(m, T, P) on an object with a call history returns something else '
+                                      'than the same call on a new object', dict(info, fresh_object_masses=fresh[0].tolist())))
+        if np.all(np.isfinite(mm)):
+            s = np.abs(mm[0]) + np.abs(mm[1]) + np.abs(feed)
+            if np.any(np.abs(mm[0] + mm[1] - feed) > TOL['identity'] * s + 1e-300) or np.any(mm < 0.):
+                out['violations'].append(('history:component-mass-not-conserved', 'gas + liquid mass differs from the feed of THIS call (or a phase mass is '
+                                          'negative) after an earlier call on the same object', info))
+            if np.any(mm[:, feed == 0.] != 0.) or np.any(xi[:, feed == 0.] != 0.):
+                out['violations'].append(('history:zero-component-not-zero', 'a component with zero mass in the feed of THIS call has mass / mole fraction in a phase',
+                                          info))
+    try:
+        fm = dbm.FluidMixture(list(names))
+        m = np.array(case['m'], dtype=float)
+        judge('1:first call', flash(fm, m), m)
+        for k, op in enumerate(ops):
+            if op[0] == 'zero':
+                m[op[1]] = 0.
+            elif op[0] == 'scale':
+                m *= 10.0 ** op[1]
+            elif op[0] == 'permute':
+                m[:] = np.roll(m, op[1])
+            judge('%d:after in-place %s of the same ndarray' % (k + 2, op[0]), flash(fm, m), m)
+        # the returned arrays must not alias anything the object keeps
+        m2 = m.copy()
+        r1 = flash(fm, m2.copy())
+        snap = tuple(np.array(x, dtype=float).copy() for x in r1)
+        for x, v in zip(r1, (-1., 7., 3.)):
+            try:
+                np.asarray(x)[...] = v
+            except (ValueError, TypeError):
+                pass
+        r2 = tuple(np.array(x, dtype=float) for x in flash(fm, m2.copy()))
+        out['calls'] += 1
+        if not all(np.array_equal(a, b, equal_nan=True) for a, b in zip(snap, r2)):
+            out['violations'].append(('history:result-aliases-internal-state', 'overwriting the arrays RETURNED by one call changes what the next identical call returns',
+                                      {'composition': names, 'T': T, 'P': P, 'm': m2.tolist(), 'first_call_masses': snap[0].tolist(), 'second_call_masses': r2[0].tolist()}))
+        judge('%d:fresh equal array after the returned arrays were overwritten' % (len(ops) + 3), r2, m2)
+    except _Timeout:
+        out['status'] = 'slow'
+    return out
+
+
+def run_history(ctx):
+    r = ctx.rng
+    jobs = []
+    for _ in range(ctx.n(60, 1500)):
+        c = scen_mix.flash_case(r, nmin=2, exclude=EXCLUDE, zero_prob=0.0)
+        n = len(c['m'])
+        ops = []
+        for _k in range(r.randint(1, 3)):
+            u = r.random()
+            ops.append(('zero', r.randrange(n)) if u < 0.4 else ('scale', r.choice([-3, -1, 1, 2, 6])) if u < 0.75 else ('permute', r.randint(1, n - 1)))
+        if all(o[0] == 'zero' for o in ops) and len(set(o[1] for o in ops)) >= n:
+            ops = ops[:1]          # keep at least one component
+        jobs.append((c, ops, ctx.n(2.0, 5.0)))
+    nproc = int(os.environ.get('VERIF_PROCS', '0') or 0) or min(8, max(1, (os.cpu_count() or 2) // 2))
+    import multiprocessing as mp
+    with mp.get_context('fork').Pool(nproc) as pool:
+        outs = pool.map(eval_history, jobs, chunksize=2)
+    nok = 0
+    for o in outs:
+        if o['status'] != 'ok':
+            ctx.count('history:budget-exceeded(not evaluated)')
+            continue
+        nok += 1
+        ctx.evaluations += o['calls']
+        ctx.count('history:histories')
+        ctx.count('history:calls', o['calls'])
+        for op in o['ops']:
+            ctx.count('history:in-place-' + op[0])
+        ctx.nontrivial.add(('history', tuple(o['case']['composition']), float('%.12g' % o['case']['T']), float('%.12g' % o['case']['P']), str(o['ops'])))
+        for key, what, case in o['violations']:
+            ctx.violation(key, what, case)
+    ctx.oblige('floors: at least %d call histories on one FluidMixture object evaluated (in-place edits of the caller\'s mass array between calls at the '
+               'same T, P; overwritten return values), each call judged against its own feed and a fresh object (%d)' % (ctx.n(45, 1100), nok),
+               nok >= ctx.n(45, 1100), '%d' % nok)
+
+
 def extra(ctx):
     """additional evidence fields"""
     return {'warm_start': dict(WARM)} if WARM else None
@@ -1390,4 +1495,7 @@ def run(ctx, lean_ok):
     t.append(time.time())
     run_targeted(ctx, dbm)
     t.append(time.time())
-    ctx.notes.append('wall time of the three parts (phase-split solve, flash, targeted): %.1f s, %.1f s, %.1f s' % (t[1] - t[0], t[2] - t[1], t[3] - t[2]))
+    run_history(ctx)
+    t.append(time.time())
+    ctx.notes.append('wall time of the four parts (phase-split solve, flash, targeted, histories): %.1f s, %.1f s, %.1f s, %.1f s'
+                     % (t[1] - t[0], t[2] - t[1], t[3] - t[2], t[4] - t[3]))
